@@ -366,7 +366,7 @@ theorem process_step_other (p p' : Proc D L) (c : PCall D L) (e : Option (Nat ×
 theorem process_state_inventory :
     Gen.processStateful = [("capi/src/io.rs", "LOGGER"), ("capi/src/io.rs", "OWNED"), ("src/verif.rs", "CALLBACK")] := rfl
 
-/-- of these, the body of `chewing_new2` names the logger slot only -/
+/-- of the stateful items, the body of `chewing_new2` names the logger slot only -/
 theorem new2_names_logger_only : Gen.new2Statics = ["LOGGER"] := rfl
 
 /-- non-vacuity: two contexts with different symbol tables in one process, one deleted, the other queried -/
